@@ -134,8 +134,8 @@ Lemma raw_got_event_XI : forall s j, J true s -> Acc s -> XI s -> ev_batch s = [
   (j = KICK_RAW \/ (inr16 j /\ rw_reg s j = true)) -> PXb (raw_got_event sc s j).
 Proof.
   intros s j Jh A X B JR. unfold raw_got_event.
-  pose proof (ksame_read (kern s) (rw_rfd s j) (if efd_raw s =? 0 then 1024 else 8)) as KS.
-  destruct (k_read (kern s) (rw_rfd s j) (if efd_raw s =? 0 then 1024 else 8)) as [k1 [n|e]]; cbn [fst] in KS.
+  pose proof (ksame_read (kern s) (rw_rfd s j) (if raw_is_pipe s j then 1024 else 8)) as KS.
+  destruct (k_read (kern s) (rw_rfd s j) (if raw_is_pipe s j then 1024 else 8)) as [k1 [n|e]]; cbn [fst] in KS.
   - destruct (n =? 0); [exact Logic.I|].
     pose proof (J_set_kern_plain true s k1 Jh KS) as J1.
     set (s1 := set_kern s k1) in *.
@@ -419,7 +419,7 @@ Proof.
   - eapply XF_trans; [apply (XF_emit s (TAct (AKOpen i))); exact Logic.I|]. apply XF_kern. cbn [kern emit set_trace clock k_user_fd k_put k_set_vfds]. lia.
   - destruct (rw_reg s j); cbn [ARes]; [|apply XF_refl]. unfold raw_post.
     match goal with |- context [let '(k1, _) := ?X in _] => assert (KS : clock (fst X) = clock (kern s)); [|destruct X as [k1 x]] end.
-    { destruct (efd_raw _ =? 0); apply ksame_write. }
+    { destruct (raw_is_pipe _ _); apply ksame_write. }
     cbn [fst] in KS. eapply XF_trans; [apply (XF_emit s (TAct (ARwPost j))); exact Logic.I|]. apply XF_kern.
     cbn [kern emit set_trace]. lia.
   - eapply XF_trans; [apply (XF_emit s (TAct (AClockAdv d))); exact Logic.I|]. apply XF_kern.
